@@ -58,7 +58,7 @@ func switchReturnLits(info *types.Info, fd *ast.FuncDecl) (tab map[string]string
 func checkC20(c *Ctx) {
 	c.Rule("R20.1", "String / CapitalString / unmarshalText tables agree for every level; only documented aliases", 16)
 	c.Rule("R20.2", "parsing never partially updates: stores only in matching arms; exact then ToLower; SetLevel/returns only under err == nil", 6)
-	c.Rule("R20.3", "HTTP handler: single SetLevel under PUT ∧ decode ok; 4xx before every error body; level read after store; decoders reject missing values", 9)
+	c.Rule("R20.3", "HTTP handler: single SetLevel under PUT ∧ decode ok; 4xx before every error body; level read after store; decoders reject missing values", 5)
 	c.Rule("R20.4", "LevelFlag registers the variable it returns; Set parses, Get reads", 2)
 
 	lvNamed := c.Named(CorePath, "Level")
@@ -294,118 +294,145 @@ func checkC20(c *Ctx) {
 	sh := c.Method(ZapPath, "AtomicLevel", "serveHTTP")
 	if c.Anchor("R20.3", "zap.AtomicLevel.serveHTTP", sh != nil) {
 		name := sh.String()
-		var sets []*ssa.Call
-		var dec *ssa.Call
-		for _, cl := range Calls(sh) {
-			if IsCallTo(cl, "(go.uber.org/zap.AtomicLevel).SetLevel") {
-				sets = append(sets, cl.(*ssa.Call))
+		// Path exploration (helpers inline; the decoders opaque): what every combination of request method and decode
+		// outcome does to the level and to the response.
+		decFn := c.Func(ZapPath, "decodePutRequest")
+		resolve := func(st *ConcState, v ssa.Value) ssa.Value {
+			v = Strip(v)
+			for k := 0; k < 12; k++ {
+				nx := st.Step(v)
+				if nx == nil {
+					break
+				}
+				v = Strip(nx)
 			}
-			if IsCallTo(cl, "go.uber.org/zap.decodePutRequest") {
-				dec, _ = cl.(*ssa.Call)
-			}
+			return v
 		}
-		if len(sets) != 1 || dec == nil {
-			c.Bad("R20.3", name, "single-set", sh.Pos(), "expected exactly one SetLevel call and one decodePutRequest call (SetLevel=%d)", len(sets))
-		} else {
-			set := sets[0]
-			atoms := AtomStrings(Guards(set))
-			put, okErr := false, false
-			for _, a := range atoms {
-				if a == `r.Method == "PUT"` {
-					put = true
+		seqs, trunc := ConcPaths(sh, ConcCfg{
+			Inline: func(h *ssa.Function) bool { return h != decFn && !strings.HasPrefix(h.Name(), "decodePut") },
+			Event: func(in ssa.Instruction, st *ConcState) string {
+				call, ok := in.(*ssa.Call)
+				if !ok {
+					return ""
 				}
-				if a == Desc(dec)+"#1 == nil" {
-					okErr = true
-				}
-			}
-			arg := Desc(set.Call.Args[1])
-			c.Check(put && okErr && arg == Desc(dec)+"#0", "R20.3", name, "set-only-on-valid-put", set.Pos(), "SetLevel(%s) is dominated by Method == PUT and a nil decode error (guards %v)", arg, atoms)
-			// reported level read after the store in the PUT arm
-			for _, cl := range Calls(sh) {
-				if IsCallTo(cl, "(go.uber.org/zap.AtomicLevel).Level") {
-					lvCall := cl.(*ssa.Call)
-					if HasAtom(Guards(lvCall), func(s string) bool { return s == `r.Method == "PUT"` }) {
-						c.Check(Dominates(set, lvCall), "R20.3", name, "reports-level-in-force", lvCall.Pos(), "the PUT response reads the level after the store")
-					}
-				}
-			}
-		}
-		// every Encode of an error body is preceded by a 4xx WriteHeader
-		nErr := 0
-		for _, cl := range CallsDeep(sh) {
-			if !IsCallTo(cl, "(*encoding/json.Encoder).Encode") {
-				continue
-			}
-			arg := Args(cl)[1]
-			mi, ok := arg.(*ssa.MakeInterface)
-			if !ok {
-				continue
-			}
-			owner := cl.Parent()
-			tn := TypeName(mi.X.Type())
-			if !strings.Contains(tn, "errorResponse") {
-				// success body: no WriteHeader with an error code may precede it
-				bad := false
-				for _, w := range CallsDeep(sh) {
-					if IsCallTo(w, "(net/http.ResponseWriter).WriteHeader") && Dominates(w, cl) {
-						bad = true
-					}
-				}
-				c.Check(!bad, "R20.3", name, "success-body-200/"+itoa(c.Fset.Position(cl.Pos()).Line-c.Fset.Position(sh.Pos()).Line), cl.Pos(), "a success body is not preceded by an error status")
-				continue
-			}
-			// the places where this error body is produced: the Encode itself, or the call sites of the helper/closure it sits in
-			produced := []ssa.Instruction{cl}
-			if owner != sh {
-				produced = nil
-				for _, st := range sitesOf(owner) {
-					produced = append(produced, st)
-				}
-			}
-			var codes []int64
-			for _, w := range Calls(owner) {
-				if !IsCallTo(w, "(net/http.ResponseWriter).WriteHeader") || !Dominates(w, cl) || w.Parent() != owner {
-					continue
-				}
-				wa := Args(w)[1]
-				if k, ok := ConstInt(wa); ok {
-					codes = append(codes, k)
-					continue
-				}
-				if prm, ok := Strip(wa).(*ssa.Parameter); ok && owner != sh {
-					for pi, pp := range owner.Params {
-						if pp != prm {
-							continue
+				switch {
+				case IsCallTo(call, "go.uber.org/zap.decodePutRequest"):
+					return "decode"
+				case IsCallTo(call, "(go.uber.org/zap.AtomicLevel).SetLevel"):
+					// the value installed is the decoder's result
+					v := resolve(st, call.Call.Args[1])
+					if ex, ok := v.(*ssa.Extract); ok && ex.Index == 0 {
+						if dc, ok := ex.Tuple.(*ssa.Call); ok && IsCallTo(dc, "go.uber.org/zap.decodePutRequest") {
+							return "set(decoded)"
 						}
-						for _, st := range sitesOf(owner) {
-							if k, ok := ConstInt(st.Common().Args[pi]); ok {
-								codes = append(codes, k)
-							} else {
-								codes = append(codes, -1)
+					}
+					return "set(" + st.Desc(call.Call.Args[1]) + ")"
+				case IsCallTo(call, "(go.uber.org/zap.AtomicLevel).Level"):
+					return "read"
+				case IsCallTo(call, "(net/http.ResponseWriter).WriteHeader"):
+					if k, ok := st.Int(Args(call)[1]); ok {
+						if k >= 400 && k < 500 {
+							return "status4xx"
+						}
+						return "status" + itoa(int(k))
+					}
+					return "status?"
+				case IsCallTo(call, "(*encoding/json.Encoder).Encode"):
+					// which body: a struct carrying a zapcore.Level (the level report) or anything else (an error report)
+					var bt types.Type
+					if mi, ok := Args(call)[1].(*ssa.MakeInterface); ok {
+						bt = mi.X.Type()
+					} else if v := resolve(st, Args(call)[1]); v != nil {
+						bt = v.Type()
+					}
+					if bt != nil {
+						if stt, ok := types.Unalias(bt).Underlying().(*types.Struct); ok {
+							for i := 0; i < stt.NumFields(); i++ {
+								if strings.HasSuffix(stt.Field(i).Type().String(), "zapcore.Level") {
+									return "body-level"
+								}
 							}
 						}
 					}
+					return "body-error"
+				}
+				return ""
+			},
+			Branch: func(cond ssa.Value, taken bool, st *ConcState) string {
+				pol := taken
+				for k := 0; k < 8; k++ {
+					if u, ok := cond.(*ssa.UnOp); ok && u.Op == token.NOT {
+						cond, pol = u.X, !pol
+						continue
+					}
+					if nx := st.Step(cond); nx != nil {
+						cond = nx
+						continue
+					}
+					break
+				}
+				bo, ok := cond.(*ssa.BinOp)
+				if !ok || bo.Op != token.EQL && bo.Op != token.NEQ {
+					return ""
+				}
+				eq := pol == (bo.Op == token.EQL)
+				l, r := st.Desc(bo.X), st.Desc(bo.Y)
+				if strings.HasSuffix(r, ".Method") {
+					l, r = r, l
+				}
+				if strings.HasSuffix(l, ".Method") {
+					m := strings.Trim(r, `"`)
+					if eq {
+						return "is" + m
+					}
+					return "not" + m
+				}
+				x := resolve(st, bo.X)
+				if ex, ok := x.(*ssa.Extract); ok && ex.Index == 1 && IsNilConst(bo.Y) {
+					if dc, ok := ex.Tuple.(*ssa.Call); ok && IsCallTo(dc, "go.uber.org/zap.decodePutRequest") {
+						if eq {
+							return "decode-ok"
+						}
+						return "decode-err"
+					}
+				}
+				return ""
+			},
+		})
+		if trunc || len(seqs) == 0 {
+			c.Und("R20.3", name, "handler-protocol", sh.Pos(), "path exploration incomplete (%d sequences, truncated=%v)", len(seqs), trunc)
+		} else {
+			var bad []string
+			seen := map[string]bool{}
+			for _, sq := range seqs {
+				var method string
+				var rest []string
+				for _, t := range strings.Split(sq, " ; ") {
+					switch {
+					case strings.HasPrefix(t, "is"):
+						method = strings.TrimPrefix(t, "is")
+					case strings.HasPrefix(t, "not"), t == "":
+					default:
+						rest = append(rest, t)
+					}
+				}
+				r := strings.Join(rest, " ")
+				ok := false
+				switch method {
+				case "GET":
+					ok = r == "read body-level"
+				case "PUT":
+					ok = r == "decode decode-err status4xx body-error" || r == "decode decode-ok set(decoded) read body-level"
+				case "":
+					ok = r == "status4xx body-error"
+				}
+				seen[method+":"+r] = true
+				if !ok {
+					bad = append(bad, sq)
 				}
 			}
-			for range produced {
-				nErr++
-			}
-			okCode := len(codes) > 0
-			for _, k := range codes {
-				okCode = okCode && k >= 400 && k < 500
-			}
-			key := itoa(nErr)
-			c.Check(okCode, "R20.3", name, "4xx-before-error-body#"+key, cl.Pos(), "an error body is preceded by WriteHeader with a 4xx status (%v)", codes)
-			noSet := true
-			for _, from := range produced {
-				if ExistsPath(sh, from, func(i ssa.Instruction) bool { return len(sets) == 1 && i == ssa.Instruction(sets[0]) }, nil) {
-					noSet = false
-				}
-			}
-			c.Check(noSet, "R20.3", name, "no-set-after-error#"+key, cl.Pos(), "no SetLevel is reachable after an error response")
-		}
-		if nErr < 2 {
-			c.Bad("R20.3", name, "error-bodies", sh.Pos(), "expected error responses for bad PUT and other methods, found %d", nErr)
+			complete := seen["GET:read body-level"] && seen["PUT:decode decode-err status4xx body-error"] && seen["PUT:decode decode-ok set(decoded) read body-level"] && seen[":status4xx body-error"]
+			c.Check(len(bad) == 0 && complete, "R20.3", name, "handler-protocol", sh.Pos(), "all %d paths of the handler (helpers inline): GET reads and reports the level, nothing else; PUT decodes - on an error it answers 4xx with an error body and never touches the level, on success it installs exactly the decoded level, then reads it back and reports it; any other method gets 4xx with an error body and no store. Offending: %v (all four cases present: %v)", len(seqs), bad, complete)
 		}
 	}
 	dj := c.Func(ZapPath, "decodePutJSON")
